@@ -117,6 +117,7 @@ def perturbations():
 
     import mido
     import mido.frozen
+    import mido.ports
 
     def bad_load(data, **kw):
         return lambda: mido.MidiFile(file=io.BytesIO(data), **kw)
@@ -154,7 +155,33 @@ def perturbations():
         p = mido.Parser()
         p.feed([0x90, 1, 2, 300])
 
+    def poke_helper_results():
+        # a caller that edits what the public helper functions hand back (decode_variable_int() itself
+        # clears the continuation bits of its argument in place)
+        from mido.midifiles import meta as mm
+        for n in (0, 1, 127, 128, 129, 300, 480, 960, 8192, 16383, 16384, 2 ** 21 - 1, 2 ** 21, 2 ** 28 - 1):
+            lst = mm.encode_variable_int(n)
+            mm.decode_variable_int(lst)
+            lst.append(0x99)
+            del lst[:1]
+        for m in (mido.Message('sysex', data=(1, 2, 3)), mido.Message('sysex'), mido.Message('note_on'), mido.Message('clock'),
+                  mido.Message('pitchwheel', pitch=-1), mido.MetaMessage('set_tempo'), mido.MetaMessage('text', text='x' * 200),
+                  mido.MetaMessage('end_of_track'), mido.MetaMessage('time_signature'), mido.MetaMessage('key_signature')):
+            for _ in range(2):
+                b = m.bytes()
+                if isinstance(b, list):
+                    b.append(0x77)
+                    del b[:2]
+            d = m.dict()
+            d.clear()
+        for f in (mido.ports.reset_messages, mido.ports.panic_messages):
+            for msg in f():
+                msg.channel = 15
+                msg.time = 99
+        mm.meta_charset          # noqa: B018 (touch only)
+
     out = [
+        ('caller edits helper results', poke_helper_results),
         ('load empty file', bad_load(b'')),
         ('load truncated file', bad_load(gb[:len(gb) - 3])),
         ('load truncated file utf-16', bad_load(gb[:30], charset='utf-16')),
